@@ -19,6 +19,6 @@ CONSTANTS
  Hist = FALSE
  Bug = "none"
  AnyConnId = FALSE
- MoveKinds = {"leader", "add", "remove", "topic", "coord", "txn", "ctrlr"}
+ MoveKinds = {"leader", "add", "addr", "remove", "topic", "coord", "txn", "ctrlr"}
 PROPERTIES C12_RefreshWithinTTL
 CHECK_DEADLOCK FALSE
